@@ -2107,4 +2107,55 @@ def fresh9 : Option ((Nat × Nat × Nat) × Option Nat × List Nat) :=
 
 end W
 
+/-! ### The restart signal: no request is lost -/
+
+/-- The newest request still in the pipeline (a blocked requester, the slot, the request being
+carried out), else the restart carried out last. -/
+def SigSt.newest (s : SigSt) : Option Mode :=
+  match s.blocked with
+  | some b => some b
+  | none =>
+    match s.slot with
+    | some m => some m
+    | none =>
+      match s.busy with
+      | some m => some m
+      | none => s.done.head?
+
+/-- A requester can only be blocked while the thread holds the lock, and nobody can fill the slot
+while the thread holds the lock. -/
+def SigSt.wf (s : SigSt) : Prop :=
+  (s.busy = none → s.blocked = none) ∧ (s.busy.isSome = true → s.slot = none)
+
+theorem sigStep_inv (s : SigSt) (e : SigEv) (h : s.wf) :
+    (sigStep s e).wf ∧
+    (sigStep s e).newest = (match e with | .request m => some m | _ => s.newest) := by
+  obtain ⟨slot, busy, blocked, done⟩ := s
+  obtain ⟨h1, h2⟩ := h
+  cases e <;> cases slot <;> cases busy <;> cases blocked <;>
+    simp_all [sigStep, SigSt.newest, SigSt.wf]
+
+theorem sigRun_inv (evs : List SigEv) : ∀ (s : SigSt), s.wf →
+    (sigRun s evs).wf ∧ (sigRun s evs).newest = lastRequest evs s.newest := by
+  induction evs with
+  | nil => intro s h; exact ⟨h, rfl⟩
+  | cons e rest ih =>
+    intro s h
+    obtain ⟨w, n⟩ := sigStep_inv s e h
+    obtain ⟨w', n'⟩ := ih (sigStep s e) w
+    refine ⟨w', ?_⟩
+    simp only [sigRun]
+    rw [n', n]
+    cases e <;> simp [lastRequest]
+
+theorem sigQuiesce_spec (s : SigSt) (h : s.wf) :
+    (sigQuiesce s).slot = none ∧ (sigQuiesce s).busy = none ∧ (sigQuiesce s).blocked = none ∧
+    (sigQuiesce s).done.head? = s.newest ∧
+    ∃ more, (sigQuiesce s).done = more ++ s.done := by
+  obtain ⟨slot, busy, blocked, done⟩ := s
+  obtain ⟨h1, h2⟩ := h
+  cases slot <;> cases busy <;> cases blocked <;>
+    simp_all [sigQuiesce, sigRun, sigStep, SigSt.newest] <;>
+    first | exact ⟨[], rfl⟩ | exact ⟨[_], rfl⟩ | exact ⟨[_, _], rfl⟩
+
 end TrustVerif.C09
